@@ -463,38 +463,66 @@ fn builtin_part(rep: &mut Report, viol: &mut Viol, drv: &mut Driver, seed: u64, 
             }
         }
     }
-    // --- the rest: crash-isolated batches
-    let list = workdir.join(format!("c10-builtin-{}.txt", std::process::id()));
-    let mut text = String::new();
-    for i in &batched {
-        text.push_str(&format!("{} {}\n", i, pred[*i].as_deref().unwrap_or("-")));
+    // --- the rest: crash-isolated batches.  Group 0: everything but the element-type cases
+    // (batches of 1500, a script that has killed three workers is not run again).  Then one group
+    // per element type (`List[<type>].<op>` scripts): one batch, short timeout; after four kills the
+    // rest of that type is skipped — the (built-in, element type) keys found so far are the replays,
+    // and a broken vtable must cost minutes, not a restart per case.
+    let is_elem = |i: usize| cases[i].class.starts_with("elem=");
+    let mut groups: Vec<(String, Vec<usize>)> = vec![("".into(), batched.iter().copied().filter(|i| !is_elem(*i)).collect())];
+    for i in batched.iter().copied().filter(|i| is_elem(*i)) {
+        let ty = cases[i].id.split("].").next().unwrap_or("").to_string() + "].";
+        match groups.last_mut() {
+            Some((g, v)) if *g == ty => v.push(i),
+            _ => groups.push((ty, vec![i])),
+        }
     }
-    std::fs::write(&list, text).expect("write builtin list");
-    let lp = list.to_string_lossy().to_string();
     let (seed_s, tier) = (seed.to_string(), if thorough { "thorough" } else { "quick" });
-    let mut crashes = vec![];
-    // a script that has killed three workers is not run again in this pass:
-    // its id goes to the skip file the batch workers read on start
-    let skip = format!("{lp}.skip");
-    let _ = std::fs::write(&skip, "");
-    let mut per_id: HashMap<String, u32> = HashMap::new();
-    run_batches(&["builtin-batch", &seed_s, tier, &lp], batched.len() as u64, 1500, Duration::from_secs(300), rep,
-        |_rep: &mut Report, idx: u64, how: &Ended| {
-            crashes.push((idx as usize, how.clone()));
-            let id = cases[batched[idx as usize]].id.clone();
-            let n = per_id.entry(id.clone()).or_insert(0);
-            *n += 1;
-            if *n == 3 {
-                use std::io::Write;
-                if let Ok(mut f) = std::fs::OpenOptions::new().append(true).open(&skip) {
-                    let _ = writeln!(f, "{id}");
+    let mut crashes: Vec<(usize, Ended)> = vec![];
+    for (gk, (gname, members)) in groups.iter().enumerate() {
+        if members.is_empty() {
+            continue;
+        }
+        let list = workdir.join(format!("c10-builtin-{}-{gk}.txt", std::process::id()));
+        let mut text = String::new();
+        for i in members {
+            text.push_str(&format!("{} {}\n", i, pred[*i].as_deref().unwrap_or("-")));
+        }
+        std::fs::write(&list, text).expect("write builtin list");
+        let lp = list.to_string_lossy().to_string();
+        // ids (or `prefix*`) the batch workers read on start and do not run
+        let skip = format!("{lp}.skip");
+        let _ = std::fs::write(&skip, "");
+        let mut per_id: HashMap<String, u32> = HashMap::new();
+        let mut kills_in_group = 0u32;
+        let (batch, timeout) = if gname.is_empty() { (1500, Duration::from_secs(300)) } else { (members.len() as u64, Duration::from_secs(60)) };
+        run_batches(&["builtin-batch", &seed_s, tier, &lp], members.len() as u64, batch, timeout, rep,
+            |rep: &mut Report, idx: u64, how: &Ended| {
+                crashes.push((members[idx as usize], how.clone()));
+                let id = cases[members[idx as usize]].id.clone();
+                let n = per_id.entry(id.clone()).or_insert(0);
+                *n += 1;
+                kills_in_group += 1;
+                let entry = if !gname.is_empty() && kills_in_group == 4 {
+                    rep.hist("builtin-not-run(element type killed four workers already)", gname.clone());
+                    Some(format!("{gname}*"))
+                } else if *n == 3 || (!gname.is_empty() && matches!(how, Ended::Timeout)) {
+                    Some(id)
+                } else {
+                    None
+                };
+                if let Some(e) = entry {
+                    use std::io::Write;
+                    if let Ok(mut f) = std::fs::OpenOptions::new().append(true).open(&skip) {
+                        let _ = writeln!(f, "{e}");
+                    }
                 }
-            }
-        });
-    let _ = std::fs::remove_file(&list);
-    let _ = std::fs::remove_file(&skip);
-    for (k, how) in crashes {
-        let c = &cases[batched[k]];
+            });
+        let _ = std::fs::remove_file(&list);
+        let _ = std::fs::remove_file(&skip);
+    }
+    for (ci, how) in crashes {
+        let c = &cases[ci];
         let how = ended_str(&how);
         rep.evaluations += 1;
         rep.hist("builtin", c.name);
@@ -502,7 +530,7 @@ fn builtin_part(rep: &mut Report, viol: &mut Viol, drv: &mut Driver, seed: u64, 
         rep.class(format!("builtin|{}|{}|{how}", c.name, c.class));
         let mut input = case_json(c);
         input["ended"] = json!(how);
-        if let Some(p) = &pred[batched[k]] {
+        if let Some(p) = &pred[ci] {
             rep.mismatch("Model/Builtins predicts a result, the real built-in killed the process", json!({"case": input, "lean": p}));
         }
         viol.add(
@@ -525,7 +553,7 @@ fn builtin_batch_worker(rep: &mut Report, seed: u64, thorough: bool, list: &str,
     for k in from..(from + n).min(lines.len()) {
         let (i, expected) = lines[k].split_once(' ').unwrap();
         let c = &cases[i.parse::<usize>().unwrap()];
-        if skip.contains(&c.id) {
+        if skip.contains(&c.id) || skip.iter().any(|p| p.ends_with('*') && c.id.starts_with(p.trim_end_matches('*'))) {
             rep.hist("builtin-not-run(script killed three workers already)", c.id.clone());
             continue;
         }
